@@ -29,7 +29,10 @@ RULE_ADDED = (
               'Also: UD sources with 0x prefix, leading zero nibbles, text that continues or spells '
               "a message header, status-word-like tails; half of the flows through the tools' own "
               'command lines; bit flips biased to the ends of a datum; encoding-only DER flips '
-              'redrawn ')
+              'redrawn '
+              ' '
+              'Round 8: SGX root of trust delivered by file / URL / default URL; the genuine ro'
+              'ot with one bit of its signature value flipped. ')
 RULE = RULE + " " + RULE_ADDED.strip()
 ASSUMPTIONS = [
     "the genuine-device models in pv/simdev/genuine.py (endorsement scheme two: signatures by "
@@ -475,7 +478,7 @@ def run_case(acc, cseed, tmpdir):
 def run_shard(spec, acc):
     env.setup()
     rng = random.Random(spec["seed"])
-    tmpdir = tempfile.mkdtemp(prefix="pv-c15-")
+    tmpdir = env.mkdtemp("c15", spec.get("shard", spec.get("seed", 0)) % 2 == 1)
     try:
         for i in range(spec["n"]):
             run_case(acc, rng.getrandbits(48), tmpdir)
@@ -485,7 +488,7 @@ def run_shard(spec, acc):
 
 def replay(case, acc):
     env.setup()
-    tmpdir = tempfile.mkdtemp(prefix="pv-c15-")
+    tmpdir = env.mkdtemp("c15")
     try:
         if case["platform"] == "ledger":
             ledger_run(acc, case["seed"], case["alter"], tmpdir)
